@@ -99,6 +99,24 @@ example :
     fillSkips [0, 1, 2, 7/2, 4, 5, 6] [3, 0, 1, 4, 0, 2, 2] [(0, 3), (3, 6)] = [3, 2, 1, 4, 10/3, 2, 2] := by
   refine ⟨by decide +kernel, by decide +kernel⟩
 
+/-- the distance kernel of a local fit (`difference / max(difference[0], difference[-1])`, tricube, `sqrt`) is the
+same on `a·x + b`, for ANY `sqrt`: it depends on ratios of differences only.  Guards: the fit index is a data
+index, and the kernel is computed without dividing by zero (`kernel_den_pos` below gives this for the windows of
+`_determine_fits` on sorted distinct x; the proof does not use it, `a·d / (a·0) = d / 0` in the totalised model). -/
+theorem kernel_affine_invariant (sqrt : Rat → Rat) (a b : Rat) (ha : 0 < a) (x : List Rat) (i left right : Nat)
+    (hi : i < x.length) (hden : kernelDen (ratNum sqrt) x i left right ≠ 0) :
+    kernelOf (ratNum sqrt) (x.map (fun t => a * t + b)) i left right = kernelOf (ratNum sqrt) x i left right :=
+  have _ := hden; LoessAffine.kernelOf_aff sqrt a b ha x i left right hi
+example :
+    kernelOf (ratNum (sqrtApprox 16)) ([-1, -1/2, 0, 3/4, 1].map (fun t => (1 / 1000000000000000000000000000000 : Rat) * t + 0)) 2 0 4 =
+      kernelOf (ratNum (sqrtApprox 16)) [-1, -1/2, 0, 3/4, 1] 2 0 4 ∧
+    kernelOf (ratNum (sqrtApprox 16)) ([-1, -1/2, 0, 3/4, 1].map (fun t => 1 * t + 1700000000)) 2 0 4 =
+      kernelOf (ratNum (sqrtApprox 16)) [-1, -1/2, 0, 3/4, 1] 2 0 4 ∧
+    kernelDen (ratNum (sqrtApprox 16)) [-1, -1/2, 0, 3/4, 1] 2 0 4 = 1 ∧
+    (kernelOf (ratNum (sqrtApprox 16)) [-1, -1/2, 0, 3/4, 1] 2 0 4).getD 2 0 = 1 ∧
+    (kernelOf (ratNum (sqrtApprox 16)) [-1, -1/2, 0, 3/4, 1] 2 0 4).getD 0 1 = 0 := by
+  refine ⟨by decide +kernel, by decide +kernel, by decide +kernel, by decide +kernel, by decide +kernel⟩
+
 /-! ### the memory strategies
 
 `Num α` interprets `+ - * / abs < sqrt` and `Solver α` is the body of `_loess_solver`: the statements hold for
